@@ -9,6 +9,8 @@ EXTENDS Naturals, Sequences, FiniteSets
 PathsOf(gens) == {gens[i].path : i \in DOMAIN gens}
 Winner(gens, p) == CHOOSE i \in DOMAIN gens : gens[i].path = p /\ \A j \in DOMAIN gens : gens[j].path = p => gens[j].prio <= gens[i].prio
 Planned(gens) == [p \in PathsOf(gens) |-> gens[Winner(gens, p)]]
+\* the plan in safe mode: the winners that declare themselves safe (a path whose winner is not safe is not planned at all)
+SafePaths(gens) == {p \in PathsOf(gens) : Planned(gens)[p].safe}
 \* A-layer: sequential add_entire
 RECURSIVE Fold(_, _)
 Fold(gens, acc) ==
